@@ -71,17 +71,15 @@ func (e *Engine) isHarnessFn(fn *ssa.Function) bool {
 	for fn.Parent() != nil {
 		fn = fn.Parent()
 	}
-	if v, ok := e.harnessFn[fn]; ok {
-		return v
+	if v, ok := e.harnessFnM.Load(fn); ok {
+		return v.(bool)
 	}
 	r := false
 	if fn.Pos().IsValid() {
 		name := filepath.Base(e.prog.Fset.Position(fn.Pos()).Filename)
 		r = strings.HasPrefix(name, "zz_verif")
 	}
-	e.harnessMu.Lock()
-	e.harnessFn[fn] = r
-	e.harnessMu.Unlock()
+	e.harnessFnM.Store(fn, r)
 	return r
 }
 
